@@ -217,6 +217,58 @@ def gen_tables(rng: random.Random, n_dec=None, max_lines=4, max_ds=4, aliases=Tr
     return doc, {"dec": dec, "stable": stable, "aliases": alias}
 
 
+def gen_sigtag(rng: random.Random):
+    """a signal / tag style file: several aliases of one particle and of its antiparticle, each pair matched by its own ChargeConj
+    statement (either direction, any spelling), the Decay block on one side and a CDecay on the other, mothers whose lines use
+    the aliases of both sides.  Returns (doc, mothers)"""
+    pairs = [("D0", "anti-D0"), ("D+", "D-"), ("D*+", "D*-"), ("K*0", "anti-K*0"), ("D_s+", "D_s-"), ("Lambda_c+", "anti-Lambda_c-")]
+    stable = ["K-", "K+", "pi+", "pi-", "pi0", "gamma", "e+", "nu_e", "K_S0"]
+    styles = [lambda a, b, t: (f"My{a}_{t}", f"My{b}_{t}"), lambda a, b, t: (f"{a}{t}", f"{b}{t}"),
+              lambda a, b, t: (f"{t}_X", f"{t}_Xbar"), lambda a, b, t: (f"My{a}{t}", f"MyAnti{a}{t}"),
+              lambda a, b, t: (f"{t}A", f"{t}B")]
+    doc = []
+    alias_stmts = []
+    cc_stmts = []
+    blocks = []
+    sides = []      # (alias of particle, alias of antiparticle)
+    for a, b in rng.sample(pairs, rng.randint(1, 2)):
+        tags = rng.sample(["sig", "tag", "1", "2", "other"], rng.randint(2, 3))
+        style = rng.choice(styles)
+        for t in tags:
+            x, y = style(a, b, t) if rng.random() < 0.7 else rng.choice(styles)(a, b, t)
+            if not (safe_label(x) and safe_label(y)) or any(x in s or y in s for s in sides):
+                continue
+            sides.append((x, y))
+            alias_stmts.append(["alias", x, a])
+            alias_stmts.append(["alias", y, b])
+            cc_stmts.append(["chargeconj", x, y] if rng.random() < 0.6 else ["chargeconj", y, x])
+            src, other = (x, y) if rng.random() < 0.7 else (y, x)
+            lines = []
+            for _ in range(rng.randint(1, 3)):
+                lines.append([rng.choice(BF_CHOICES[:6]), [rng.choice(stable) for _ in range(rng.randint(2, 4))], False, ["named", "PHSP", None]])
+            blocks.append(["decay", src, lines])
+            blocks.append(["cdecay", other])
+    mothers = []
+    for (ma, mb) in rng.sample([("B-", "B+"), ("B0", "anti-B0"), ("B_s0", "anti-B_s0")], rng.randint(1, 2)):
+        x, y = f"{ma}sig", f"{mb}sig"
+        alias_stmts += [["alias", x, ma], ["alias", y, mb]]
+        cc_stmts.append(["chargeconj", x, y] if rng.random() < 0.5 else ["chargeconj", y, x])
+        lines = []
+        for _ in range(rng.randint(1, 3)):
+            ds = [rng.choice(rng.choice(sides)) for _ in range(rng.randint(1, 2))] + [rng.choice(stable) for _ in range(rng.randint(0, 2))]
+            lines.append([rng.choice(BF_CHOICES[:6]), ds, False, ["named", "PHSP", None]])
+        blocks.append(["decay", x, lines])
+        blocks.append(["cdecay", y])
+        mothers += [x, y]
+    rng.shuffle(alias_stmts) if rng.random() < 0.5 else None
+    rng.shuffle(cc_stmts) if rng.random() < 0.5 else None
+    doc = alias_stmts + cc_stmts + blocks
+    if rng.random() < 0.3:
+        # the ChargeConj statements between or after the blocks
+        doc = alias_stmts + blocks + cc_stmts
+    return doc, mothers + [s for pr in sides for s in pr]
+
+
 # ----------------------------------------------------------------------------- full .dec documents
 NUM_FORMS = ["1", "1.", ".5", "-0.8", "+3", "20.e12", "2E-4", "0.5", "1.0", "0", "-1", "3.14159", "1e-5", "0.507e12", "12", "-.25", "+1.5E+2"]
 WORD_PARAMS = ["DtoKpipipi_v1", "x1", "dm", "beta", "Vub", "my_par", "fD", "a/b", "q(1)", "w'", "z~", "A*B",
@@ -286,7 +338,7 @@ def gen_doc(rng: random.Random, n_blocks=None, globals_p=0.5, cc=True, copies=Tr
             m = rng.choice(pool)
         mothers.append(m)
         lines = []
-        for _ in range(rng.randint(0 if rng.random() < 0.12 else 1, 5)):
+        for _ in range(0 if rng.random() < 0.06 else rng.randint(0 if rng.random() < 0.12 else 1, 5)):
             ds = [rng.choice(pool) for _ in range(rng.randint(0 if rng.random() < 0.05 else 1, 5))]
             lines.append([rng.choice(NUM_FORMS[:4] + BF_CHOICES), ds, rng.random() < 0.25, rand_model(rng, defined, malias, all_models=rng.random() < 0.5)])
         if repeats and lines and rng.random() < 0.15:
@@ -297,7 +349,10 @@ def gen_doc(rng: random.Random, n_blocks=None, globals_p=0.5, cc=True, copies=Tr
     stmts += blocks
     if cc:
         for _ in range(rng.randint(0, 3)):
-            a, b = rng.sample(pool, 2)
+            # aliases between any two names, and (half of the time, when possible) between two mothers: a name with its own
+            # block - empty or not - that is also declared an alias of another particle with a block keeps its own table
+            ms = list(dict.fromkeys(mothers))
+            a, b = rng.sample(ms, 2) if len(ms) >= 2 and rng.random() < 0.5 else rng.sample(pool, 2)
             stmts.append(["alias", a, b])
         for _ in range(rng.randint(0, 2)):
             a, b = rng.sample(pool, 2)
